@@ -167,6 +167,40 @@ func validBody(fc uint8, n int, seed uint64) []byte {
 	return f[8:]
 }
 
+// prefixBody: the first n-8 body bytes of a large valid request of function fc (in-range quantities, remainder cut off or
+// zero padded): the shape a header-consistent truncation has.
+func prefixBody(fc uint8, n int, seed uint64) []byte {
+	if !spec.IsSupported(fc) || n < 8 || n > 400 {
+		return nil
+	}
+	s := seed
+	r := spec.Req{FC: fc, Addr: uint16(harness.SplitMix64(&s))}
+	switch fc {
+	case 1, 2:
+		r.Qty = 100
+	case 3, 4:
+		r.Qty = 100
+	case 5:
+		r.Value = 0xFF00
+	case 6:
+		r.Value = 7
+	case 15:
+		r.Qty = 1968
+		r.Payload, r.ByteCount = harness.Bytes(s, 246), 246
+	case 16:
+		r.Qty = 123
+		r.Payload, r.ByteCount = harness.Bytes(s, 246), 246
+	case 23:
+		r.Qty, r.WQty = 100, 121
+		r.Payload, r.ByteCount = harness.Bytes(s, 242), 242
+	}
+	f := spec.EncodeRequest(spec.TCP, r)
+	body := f[8:]
+	out := make([]byte, n-8)
+	copy(out, body)
+	return out
+}
+
 func runHeader(c headerCase) harness.Result {
 	hdr := []byte{0, 0, byte(c.Proto >> 8), byte(c.Proto), byte(c.Length >> 8), byte(c.Length), 0, 0}
 	s := c.Seed ^ uint64(c.Length)<<16 ^ uint64(c.Proto)
@@ -221,6 +255,9 @@ func runHeader(c headerCase) harness.Result {
 		}
 		if vb := validBody(uint8(fc), n, s); vb != nil {
 			bodies = append(bodies, vb)
+		}
+		if pb := prefixBody(uint8(fc), n, s); pb != nil {
+			bodies = append(bodies, pb)
 		}
 		for _, b := range bodies {
 			frame := append(append([]byte(nil), hdr...), b...)
